@@ -115,7 +115,10 @@ def pool : List Rule := [
       [("i", "a")]⟩,
   -- a binder that only the right side writes, around both variables: no e-node of the left pattern has a bound slot, so the
   -- first fresh slot drawn while matching names a slot of a variable (`a*b = let x = 1 in (x*a)*b`)
-  ⟨"let-intro", mul (pv "a") (pv "b"), let_ "x" (mul (mul (var "x") (pv "a")) (pv "b")) (num 1), [], [("x", "a"), ("x", "b")]⟩
+  ⟨"let-intro", mul (pv "a") (pv "b"), let_ "x" (mul (mul (var "x") (pv "a")) (pv "b")) (num 1), [], [("x", "a"), ("x", "b")]⟩,
+  -- two nested bindings inlined at once: a right side with CHAINED substitutions (the outer one has to go through what the
+  -- inner one brought in: `?f` may mention `$x`)
+  ⟨"let-let-subst", let_ "x" (let_ "y" (pv "b") (pv "f")) (pv "e"), subst (subst (pv "b") "y" (pv "f")) "x" (pv "e"), [], []⟩
 ]
 
 open P in
